@@ -109,14 +109,25 @@ class PathEnum:
             return [v['name'] for v in a['variants']]
         return None
 
-    def atom_for(self, b, sb, nsucc):
+    def atom_for(self, b, sb, nsucc, pre=None):
         """atom describing why control went from block b to successor sb (None if unconditional)"""
         t = self.fn.blocks[b]['t']
         if t['t'] != 'switch' or nsucc < 2:
             return None
         vals = [v for v, tb in t['targets'] if tb == sb]
         is_other = (t['otherwise'] == sb)
-        d = self.sym.operand(t['discr'])
+        dop = t['discr']
+        # a multiply-assigned bool that currently holds a copy of another place: describe that place
+        if pre is not None and dop[0] != 'k' and is_local(dop[1]):
+            import json as _json
+            from .facts import pkey as _pkey
+            v = pre.get(_pkey(dop[1]))
+            guard = 0
+            while v is not None and v[0] == 'same' and guard < 4:
+                dop = ['c', _json.loads(v[1])]
+                v = pre.get(v[1])
+                guard += 1
+        d = self.sym.operand(dop)
         ds = strip(d)
         if ds[0] == 'discr':
             pl_s = render(strip(ds[1]))
@@ -238,7 +249,7 @@ class PathEnum:
                     continue
                 if not sub:
                     continue
-                a = self.atom_for(b, sb, nsucc)
+                a = self.atom_for(b, sb, nsucc, pre)
                 lab = g.labels.get((n, m))
                 extra = set()
                 if a:
